@@ -71,8 +71,17 @@ class PriorStub:
     def __init__(self, setup):
         self.setup = setup
 
-    def sample(self, size=1, return_logprobs=False, **kw):
-        raise core.UnsupportedByShim("prior.sample inside group-A harness")
+    def sample(self, size=1, generate_linear=False, return_logprobs=False, rng=None, **kw):
+        """contract stub of JokerPrior.sample: `size` fresh rows drawn from the generator it is given (the
+        real function is the subject of C09/C10's prior part); records which generator it received"""
+        S = self.setup
+        S.w.event("prior.sample", getattr(rng, "key", None))
+        S.prior_sample_rngs.append(rng)
+        if rng is None:
+            S.w.global_random_touched.append("prior.sample called without the sampler's generator (fresh OS entropy)")
+        lib, lnp = S.library(int(size), with_lnp=True, tag="ps")
+        S.count_library = (lib, lnp)
+        return S.as_samples(lib, lnp if return_logprobs else None)
 
 
 class Setup:
@@ -121,11 +130,13 @@ class Setup:
     def reset(self, fault_at=None):
         self.w.reset(fault_at)
         del self.helpers[:]
+        self.prior_sample_rngs = []
+        self.count_library = None
 
-    def library(self, N, with_lnp=True):
+    def library(self, N, with_lnp=True, tag="lib"):
         """N symbolic library rows (internal units) + ln_prior values"""
-        lib = [[core.real("lib_%d_%s" % (i, c)) for c in NL] for i in range(N)]
-        lnp = [core.real("lnp_%d" % i) for i in range(N)] if with_lnp else None
+        lib = [[core.real("%s_%d_%s" % (tag, i, c)) for c in NL] for i in range(N)]
+        lnp = [core.real("lnp%s_%d" % ("" if tag == "lib" else tag, i)) for i in range(N)] if with_lnp else None
         return lib, lnp
 
     def lib_units(self):
